@@ -53,6 +53,10 @@ pub fn fill_byte(addr: u32, k: u32) -> u8 {
     if (k & 0x100) != 0 && (0x100000..0x100100).contains(&addr) {
         return b & 0x0F;
     }
+    // flag 0x200: internal-memory bytes are valid packed BCD digits
+    if (k & 0x200) != 0 && (0x100000..0x100100).contains(&addr) {
+        return (((b >> 4) % 10) << 4) | ((b & 0x0F) % 10);
+    }
     b
 }
 
